@@ -50,3 +50,16 @@ reg("C04", level="exploration", overlay="plain",
     level_text="Time64FromTime/TimeFromTime64 are evaluated on all 10^9 nanosecond values, on all (thorough) 2^32 fractions and on a seconds grid that contains every era boundary up to 2308 with all 2^16 neighbouring offsets and both window edges; the seconds and fraction computations are independent in the code, and the cross product is taken on the boundary sets. Exhaustive over that space.",
     budget={"quick": 120, "thorough": 1500}, workers={"quick": 16, "thorough": 16},
     assumptions=["seconds offsets are boundary-dense, not all 2^32 per reference", "reference times up to 2^33 s after 1900"])
+
+reg("C18", level="exploration", overlay="plain",
+    technique="exhaustive enumeration of residues / kernel ppm range / 16-bit field slices with math/big oracles",
+    level_text="Every function is evaluated on a space that is complete in the dimension its arithmetic branches on (all 10^9 remainders, all 65 536 001 scaled-ppm values, all values of each 16-bit slice of the 48-bit seconds, all 2^16 low words of a correction field) and boundary-dense elsewhere; results are compared with arbitrary-precision arithmetic.",
+    budget={"quick": 120, "thorough": 900}, workers={"quick": 16, "thorough": 16},
+    assumptions=["quotients / high words are boundary sets, not all values", "Drift is checked on driver/clocks.SystemClock (no syscalls are made by Drift)"])
+
+reg("C14", level="exploration", overlay="plain",
+    technique="exhaustive byte-level and shape-level enumeration of encodings; exhaustive stream segmentations through a scripted io.Reader",
+    level_text="Round trips are checked on every value of every byte (and byte pair) of the fixed-layout codecs, on every NTS packet shape that fits the packet size, and on every segmentation (all cuts, all pairs of cuts, all 2^17 segmentations of a short stream) of NTS-KE record streams. Exhaustive over that space.",
+    budget={"quick": 120, "thorough": 900}, workers={"quick": 1, "thorough": 1},
+    assumptions=["fields wider than 16 bits are exercised through every byte and adjacent byte pair on three base patterns, not through all values",
+                 "padding bytes written by the NTS encoder are zero (checked) and ignored by the comparison"])
